@@ -103,6 +103,24 @@ def enum_item(t):
     return None
 
 
+def zip_item(t):
+    """if t is the item of `for (a, b) in A.iter_mut().zip(B.iter())` (unwrap(Zip::next(phi iter))) return (A, B) else None"""
+    if isinstance(t, tuple) and t and t[0] == "unwrap" and isinstance(t[1], tuple) and t[1][0] == "call" \
+            and t[1][1].endswith("Zip<A, B> as std::iter::Iterator>::next"):
+        it = t[1][2][0]
+        if isinstance(it, tuple) and it[0] == "phi":
+            init = it[4]
+            if isinstance(init, tuple) and init and init[0] == "call" and init[1].endswith("Iterator::zip") and len(init[2]) == 2:
+                def strip(seq):
+                    n = 0
+                    while isinstance(seq, tuple) and seq and seq[0] == "call" and re.search(r"::(iter|into_iter|iter_mut|copied|cloned)$", seq[1]) and seq[2] and n < 4:
+                        seq = seq[2][0]
+                        n += 1
+                    return seq
+                return strip(init[2][0]), strip(init[2][1])
+    return None
+
+
 def norm_loopvars(t):
     """replace range-loop items by ('i', lo, hi), and the two components of an enumerate item by the same index and the indexed
     element (`for (i, x) in seq.iter().enumerate()`: i -> ('i', 0, len(seq)), x -> seq[i]), so that the two spellings of a loop
@@ -118,6 +136,12 @@ def norm_loopvars(t):
             i = ("i", mk_const("usize", 0), ("len", seq))
             m[("field", s, ("f", "0"))] = i
             m[("field", s, ("f", "1"))] = ("idx", seq, i)
+        zp = zip_item(s)
+        if zp is not None:
+            # the k-th item of A.zip(B) is (A[k], B[k]) for k below the shorter length
+            i = ("i", mk_const("usize", 0), ("min", ("len", zp[0]), ("len", zp[1])))
+            m[("field", s, ("f", "0"))] = ("idx", zp[0], i)
+            m[("field", s, ("f", "1"))] = ("idx", zp[1], i)
     return subst(t, m) if m else t
 
 
